@@ -90,6 +90,7 @@ def gen(rng, tier, i):
     if sc.net["chaos"]:
         sc.net["chaos"]["capacity"] = 1 << 20
     sc.net["spawn_yield"] = rng.choice([0, 300])
+    sc.net["lock_yield"] = rng.choice([0, 0, 300])   # seeded scheduling points at the asynchronous locks
     sc.cfg["timeouts"] = {"idle": 5, "udp": 5}
     # destination
     kind = rng.choice(["domain", "domain", "domain", "ipv4", "ipv6"])
